@@ -80,6 +80,9 @@ func CmdSearch(args []string, seed int64) int {
 			continue
 		}
 		ep := sc.Epochs[0]
+		if ep.Byz {
+			continue // forkers of one third or more: the specification only judges block contents there, not a corpus candidate
+		}
 		// canonical order: weight desc, id asc
 		vals := append([]ValW{}, ep.Vals...)
 		sort.SliceStable(vals, func(i, j int) bool {
